@@ -94,7 +94,7 @@ PROPS = {
         "assumptions": ["ties on the greatest timestamp: the rebuilt head names the key last in table order, the maintained head the key inserted last; both carry the same timestamp"],
     },
     "C01": {
-        "lean_modules": ["DocsModel.Props.C01"],
+        "lean_modules": ["DocsModel.Props.C01", "DocsModel.Props.C01Converge"],
         "trusted_base": COMMON_TRUST + [
             "redb tables modelled as sorted lists (range = in-order filter by the bounds)",
             "BLAKE3 entry fingerprints are supplied by the harness with each entry; the model XORs them as the code does",
@@ -103,7 +103,9 @@ PROPS = {
         "assumptions": [
             "messages are delivered intact and in order; every entry passes both sides' validation",
             "PayloadFunctional (F11 excluded)",
-            "convergence of a complete session to the join, termination within the message budget and the silent second session are checked by the correspondence harness against the specification on every run; the Lean theorems proved so far are counts_mirror, join_absorbs, equal_replicas_first_message_is_last, join_entry_always_accepted, join_entry_never_removed",
+            "FpInjective (hypothesis of session_converges): two different sets of entries of the two replicas never have the same XOR-of-BLAKE3 range fingerprint (BLAKE3 is outside the model; satisfiable: fpInjective_example)",
+            "session_converges is proved on the ordered-map backend (mapOps) for every split_factor >= 2 and max_set_size and both initiators: IF the session ends THEN both replicas equal join(A0 u B0) = run [] (A0 ++ B0); the redb tables refine that backend primitive by primitive (C08 theorems) and message by message in the correspondence check",
+            "termination within the message budget 4(|A|+|B|)+8 and the silent second session are not theorems: they are checked by the correspondence harness on every run (for split_factor > 2 a session in which one side keeps rejecting the other's entries need not end, DESIGN.md O1)",
         ],
     },
     "C08": {
